@@ -9,6 +9,11 @@ CLAIMED = {
 		text='Every obligation (pre@call, post, loop invariant init/preservation, variant, exception-freedom) generated from the current source of the block-splitting helpers is discharged for all inputs; the quote-domination part of the no-cut-inside-quotes law is a labelled bounded stand-in.',
 		note='pyvc encoding of the Python subset; z3/cvc5 soundness; spec functions in specs/brackets.py are the oracle; bounded parts listed in evidence.bounded_checks',
 		ref='DESIGN.md §4 C18'),
+	'C01': dict(
+		level='proof',
+		text='Claimed for the expression-grouping clause only. Closed obligations decided by evaluation on every run: for all 421 compositions of the 19 operator levels of the Python grammar (ternary, or, and, not, comparisons, | ^ &, shifts, + -, * %, unary - ~) in every operand position where Python needs no parentheses, the C++ text emitted by the real pipeline, read with C++ precedence, groups as Python groups the source. Proved (VC): on_not_compare parenthesises a binary operand, on_comparison parenthesises bitwise operands (the two places where the precedences differ and the code protects). Bounded: generated scalar functions compiled with g++ -std=c++20 and run against CPython. Comparison chains are a recorded known finding (F-C01-c). Classes, containers, strings, closures, exceptions and type inference are not decided.',
+		note='pairwise protection extends to any depth only by the compositional-rendering argument (not machine-checked); C++ precedence table and g++ trusted; most of the statement is outside what contracts can reach (see not decided parts)',
+		ref='DESIGN.md §4 C01, §9'),
 	'C04': dict(
 		level='proof',
 		text='Proved for all inputs, at the level of the session tables: Entrypoints.load/unload, Modules.load (with its recursive loading of libraries and imports) / unload, NodeResolver.resolve/clear, Memo.get, Memoize.get and the SymbolDB operations are maps with exact frames - a look-up of something present returns the stored object and changes nothing, loading adds only the requested entries and never replaces a loaded module, entry point, node instance or memoised value, unloading removes exactly the requested entry; under a memo key the first factory decides the value. The statement itself (every transpile inside any history equals the fresh-process result, for every hash seed) is a labelled bounded twin on the real pipeline.',
